@@ -177,6 +177,7 @@ def run_case(case, rec):
         res, _ = bubble_residual(bp, z, T0, P, y)
         rec.check(abs(res) <= 1e-6, 'bubble-residual', f'solve_Py/{cls}', f'bubble pressure {P!r} at T={T0}: 1 - sum(y) recomputed = {res!r} (z={z.tolist()}, ids={ids})', residual=abs(res))
         rec.check(abs(y.sum() - 1) <= 1e-12 and (y >= 0).all(), 'normalised', 'solve_Py', f'returned y {y.tolist()} sums to {y.sum()!r}')
+    bub_bad = {}
     if Tb is not None:
         T, y = Tb; y = np.asarray(y, float)
         if Tlo < T < Thi:
@@ -188,6 +189,7 @@ def run_case(case, rec):
                     zn = z / z.sum(); own = bp._T_error(T, P0, z / P0, zn, y.copy())
                     if abs(own) > 1e-7 or not np.isfinite(own): sfx = '/unconverged-iterate'
                 except Exception: sfx = '/unconverged-iterate'
+            if sfx: bub_bad['solve_Ty'] = 'unconverged'
             rec.check(abs(res) <= 1e-6, 'bubble-residual', f'solve_Ty/{cls}{sfx}', f'bubble temperature {T!r} at P={P0}: 1 - sum(y) recomputed = {res!r} (z={z.tolist()}, ids={ids})', residual=abs(res))
         else: rec.refuse('bubble temperature at the edge of the vapour-pressure domain (not judged)')
         rec.check(abs(y.sum() - 1) <= 1e-12 and (y >= 0).all(), 'normalised', 'solve_Ty', f'returned y {y.tolist()} sums to {y.sum()!r}')
@@ -253,8 +255,8 @@ def run_case(case, rec):
                 rec.check(abs(r[0] - Pb[0]) <= 1e-9 * Pb[0] + 1e-2 and np.allclose(r[1], np.asarray(Pb[1])[list(p)], rtol=1e-8, atol=1e-14), 'permutation', f'bubble-P/{cls}', f'bubble pressure depends on the order of the chemicals: {Pb[0]!r} vs {r[0]!r} for order {pid}')
             if Tb is not None and Tlo < Tb[0] < Thi:
                 r = bpp.solve_Ty(zp.copy(), P0)
-                rec.check(abs(r[0] - Tb[0]) <= 1e-9 * Tb[0] + 1e-8, 'permutation', f'bubble-T/{cls}', f'bubble temperature depends on the order of the chemicals: {Tb[0]!r} vs {r[0]!r} for order {pid}')
-                rec.check(np.allclose(r[1], np.asarray(Tb[1])[list(p)], rtol=1e-6, atol=1e-12), 'permutation', f'bubble-T-y/{cls}', f'the vapour composition at the bubble temperature is not permuted with the list: {np.asarray(Tb[1])[list(p)].tolist()} vs {np.asarray(r[1]).tolist()} for order {pid}')
+                rec.check(abs(r[0] - Tb[0]) <= 1e-9 * Tb[0] + 1e-8, 'permutation', f'bubble-T/{cls}' + ('/bubble-unconverged' if bub_bad.get('solve_Ty') else ''), f'bubble temperature depends on the order of the chemicals: {Tb[0]!r} vs {r[0]!r} for order {pid}')
+                rec.check(np.allclose(r[1], np.asarray(Tb[1])[list(p)], rtol=1e-6, atol=1e-12), 'permutation', f'bubble-T-y/{cls}' + ('/bubble-unconverged' if bub_bad.get('solve_Ty') else ''), f'the vapour composition at the bubble temperature is not permuted with the list: {np.asarray(Tb[1])[list(p)].tolist()} vs {np.asarray(r[1]).tolist()} for order {pid}')
             if Pd is not None:
                 r = dpp.solve_Px(zp.copy(), T0)
                 stp, _ = dew_status(dpp, zp, T0, r[0], r[1], 'solve_Px')
@@ -299,7 +301,7 @@ def run_case(case, rec):
         except Exception as e:
             if type(e).__name__ in ('InfeasibleRegion', 'DomainError'): rec.refuse('scaled call refused'); continue
             rec.exception('scale', e, what=f'{name} with k*z raised {type(e).__name__}: {str(e)[:100]}')
-    try: extra(case, rec, th, chems, bp, dp, z, T0, P0, cls, Pb, Tb, Pd, Td, dew_bad, call)
+    try: extra(case, rec, th, chems, bp, dp, z, T0, P0, cls, Pb, Tb, Pd, Td, dew_bad, call, bub_bad)
     except Exception as e: rec.exception('harness', e, what=f'harness error in the additional clauses: {type(e).__name__}: {e}')
     if int((z > 1e-6).sum()) >= 2: rec.mark_nontrivial(case_hash(case))
 
@@ -350,7 +352,8 @@ def single_extra(case, rec, th, chems, bp, dp, z, T0, P0, k_pos):
             else: rec.exception('single-component', e, what=f'single component on the permuted list {pid} raised {type(e).__name__}: {str(e)[:100]}')
 
 
-def extra(case, rec, th, chems, bp, dp, z, T0, P0, cls, Pb, Tb, Pd, Td, dew_bad, call):
+def extra(case, rec, th, chems, bp, dp, z, T0, P0, cls, Pb, Tb, Pd, Td, dew_bad, call, bub_bad=None):
+    bub_bad = bub_bad or {}
     ids = case['ids']; k = case['k']; n = len(ids)
     Tlo, Thi = bp.Tmin, bp.Tmax
     zn = z / z.sum()
@@ -358,7 +361,7 @@ def extra(case, rec, th, chems, bp, dp, z, T0, P0, cls, Pb, Tb, Pd, Td, dew_bad,
     if Tb is not None and Tlo + 1 < Tb[0] < Thi - 1:
         r = call('inverse:solve_Py(solve_Ty)', lambda: bp.solve_Py(z.copy(), Tb[0]))
         # (equivalent of the 1e-4 K bound of the T<-P<-T direction: d ln P / dT of a bubble line is below 0.1 / K)
-        if r is not None: rec.check(abs(r[0] - P0) <= 1e-5 * P0, 'inverse', f'bubble-P/{cls}', f'solve_Py(z, solve_Ty(z,{P0}).T={Tb[0]!r}).P = {r[0]!r}', residual=abs(r[0] - P0) / P0)
+        if r is not None: rec.check(abs(r[0] - P0) <= 1e-5 * P0, 'inverse', f'bubble-P/{cls}' + ('/bubble-unconverged' if bub_bad.get('solve_Ty') else ''), f'solve_Py(z, solve_Ty(z,{P0}).T={Tb[0]!r}).P = {r[0]!r}', residual=abs(r[0] - P0) / P0)
     if Td is not None and Tlo + 1 < Td[0] < Thi - 1 and dew_bad.get('solve_Tx') in ('ok', 'unconverged', 'wrong'):
         r = call('inverse:solve_Px(solve_Tx)', lambda: dp.solve_Px(z.copy(), Td[0]))
         if r is not None:
@@ -412,6 +415,11 @@ def extra(case, rec, th, chems, bp, dp, z, T0, P0, cls, Pb, Tb, Pd, Td, dew_bad,
                 except Exception as e:
                     if refusal(e): rec.refuse('stream-level call refused'); continue
                     rec.exception(f'stream-level/{cls}', e, what=f'Stream.{name}({kw}) on {ids} raised {type(e).__name__}: {str(e)[:100]}'); continue
+                # the solver behind the stream-level call is built on the chemicals with flow: its vapour-pressure domain (Tmin, Tmax) can be narrower than the
+                # package's, and outside it the solvers clamp the temperature (documented edge of the domain: not judged)
+                sub_solver = (s.get_bubble_point if name.startswith('bubble') else s.get_dew_point)(kw.get('IDs'))
+                T_used = T0 if name.endswith('_T') else a.T
+                if not (sub_solver.Tmin < T_used < sub_solver.Tmax): rec.refuse('stream-level call at the edge of the vapour-pressure domain of the chemicals with flow (temperature clamped: not judged)'); continue
                 rec.hit('stream-level:' + form)
                 val = a.P if name.endswith('_T') else a.T
                 comp = np.asarray(a.y if name.startswith('bubble') else a.x, float)
@@ -450,7 +458,7 @@ def extra(case, rec, th, chems, bp, dp, z, T0, P0, cls, Pb, Tb, Pd, Td, dew_bad,
                 rec.check(abs(r[0] - Pb[0]) <= 1e-9 * Pb[0] + 1e-2 and np.allclose(r[1], np.asarray(Pb[1])[p], rtol=1e-8, atol=1e-14), 'permutation', f'bubble-P/{cls}', f'bubble pressure / y depend on the order of the chemicals: {Pb[0]!r} vs {r[0]!r} for order {pid}')
             if Tb is not None and Tlo < Tb[0] < Thi:
                 r = bpp.solve_Ty(zp.copy(), P0)
-                rec.check(abs(r[0] - Tb[0]) <= 1e-9 * Tb[0] + 1e-8 and np.allclose(r[1], np.asarray(Tb[1])[p], rtol=1e-6, atol=1e-12), 'permutation', f'bubble-T/{cls}', f'bubble temperature / y depend on the order of the chemicals: {Tb[0]!r}, {np.asarray(Tb[1])[p].tolist()} vs {r[0]!r}, {np.asarray(r[1]).tolist()} for order {pid}')
+                rec.check(abs(r[0] - Tb[0]) <= 1e-9 * Tb[0] + 1e-8 and np.allclose(r[1], np.asarray(Tb[1])[p], rtol=1e-6, atol=1e-12), 'permutation', f'bubble-T/{cls}' + ('/bubble-unconverged' if bub_bad.get('solve_Ty') else ''), f'bubble temperature / y depend on the order of the chemicals: {Tb[0]!r}, {np.asarray(Tb[1])[p].tolist()} vs {r[0]!r}, {np.asarray(r[1]).tolist()} for order {pid}')
             if Pd is not None and dew_bad.get('solve_Px') in ('ok', 'unconverged'):
                 r = dpp.solve_Px(zp.copy(), T0)
                 stp, _ = dew_status(dpp, zp, T0, r[0], r[1], 'solve_Px')
